@@ -543,13 +543,11 @@ func c29R2R3(c *Ctx, a *c29Anchors, R2, R3 string) {
 	if loop.Key != nil {
 		ivar = core.VarOf(info, loop.Key)
 	}
-	// isBindingField: e denotes field f of the binding being visited (b.f or s.bindings[i].f)
-	isBindingField := func(e ast.Expr, f *types.Var) bool {
-		se, ok := c23Strip(info, e).(*ast.SelectorExpr)
-		if !ok || core.FieldOf(info, se) != f {
-			return false
-		}
-		base := ast.Unparen(se.X)
+	inBody := g.Reach([]int{body}, func(n int) bool { return n == head }, nil)
+
+	// ---- scan writeRTP and the same-package helpers the packet is passed to
+	top := &c29Frame{fi: fi, info: info, g: g, pvars: pvars, isBinding: func(base ast.Expr) bool {
+		base = ast.Unparen(base)
 		if bvar != nil && core.VarOf(info, base) == bvar {
 			return true
 		}
@@ -557,174 +555,72 @@ func c29R2R3(c *Ctx, a *c29Anchors, R2, R3 string) {
 			return true
 		}
 		return false
-	}
-	inBody := g.Reach([]int{body}, func(n int) bool { return n == head }, nil)
-
-	// ---- fan-out calls: interface method WriteRTP invoked on <binding>.writeStream
+	}}
+	events := c29Scan(c, a, top, 0)
 	var sendNodes []int
 	sendOK := true
-	for _, id := range g.FindNodes(func(n ast.Node) bool {
-		call, ok := n.(*ast.CallExpr)
-		if !ok {
-			return false
-		}
-		se, ok := ast.Unparen(call.Fun).(*ast.SelectorExpr)
-		return ok && core.FieldOf(info, se.X) == a.fStream
-	}) {
-		sendNodes = append(sendNodes, id)
-	}
-	for _, id := range sendNodes {
-		var call *ast.CallExpr
-		core.InspectShallow(g.Nodes[id].Ast, func(n ast.Node) bool {
-			if cl, ok := n.(*ast.CallExpr); ok {
-				if se, ok := ast.Unparen(cl.Fun).(*ast.SelectorExpr); ok && core.FieldOf(info, se.X) == a.fStream {
-					call = cl
-				}
+	rewrites := map[string][]int{} // field name -> nodes of writeRTP after which the field is rewritten
+	seenKey := map[string]bool{}
+	for _, ev := range events {
+		switch ev.kind {
+		case "send":
+			sendNodes = append(sendNodes, ev.node)
+			ok := ev.srcOK && inBody[ev.node] && ev.once
+			sendOK = sendOK && ok
+			why := "the packet is written to a stream that is not writeStream of the binding being visited in the loop"
+			if ev.srcOK && !ev.once {
+				why = "the helper " + ev.via + " does not perform the write exactly once on every path"
 			}
-			return true
-		})
-		se := ast.Unparen(call.Fun).(*ast.SelectorExpr)
-		ok := isBindingField(se.X, a.fStream) && inBody[id]
-		sendOK = sendOK && ok
-		r.Check(ok, R2, "writeRTP|fanout|stream-of-the-visited-binding", c.P.Pos(call.Pos()), "writer of the binding being visited", "the packet is written to a stream that is not writeStream of the binding being visited in the loop")
-		// arguments: header and payload of the same packet
-		argsOK := len(call.Args) == 2
-		for _, arg := range call.Args {
-			rooted, elem := c29RootedAt(info, arg, pvars)
-			if !rooted || elem {
-				argsOK = false
+			r.Check(ok, R2, "writeRTP|fanout|stream-of-the-visited-binding", c.P.Pos(ev.pos), "writer of the binding being visited", why)
+			r.Check(ev.argsOK, R2, "writeRTP|fanout|sends-header-and-payload-of-the-packet", c.P.Pos(ev.pos), "header and payload of the rewritten packet", "the fan-out call does not pass the header and payload of the rewritten packet")
+		case "rewrite":
+			if ev.always {
+				rewrites[ev.field] = append(rewrites[ev.field], ev.node)
+			}
+			want := a.fSSRC
+			if ev.field == "PayloadType" {
+				want = a.fPT
+			}
+			r.Check(ev.srcOK && inBody[ev.node], R2, "writeRTP|rewrite|"+ev.field+"<-binding."+want.Name(), c.P.Pos(ev.pos), "taken from the binding being visited"+ev.viaNote(),
+				sprintf("header field %s is not set from %s of the binding being visited (inside the loop)%s", ev.field, want.Name(), ev.viaNote()))
+		case "padding":
+			r.Check(ev.srcOK, R2, "writeRTP|write|Header.PaddingSize-mirror", c.P.Pos(ev.pos), "mirrors the packet's own PaddingSize"+ev.viaNote(), "Header.PaddingSize is set from something other than the packet's own PaddingSize"+ev.viaNote())
+		case "bad":
+			if !seenKey[ev.key] {
+				seenKey[ev.key] = true
+				r.Fail(R2, ev.key, c.P.Pos(ev.pos), ev.detail+ev.viaNote())
+			}
+		case "undecided":
+			if !seenKey[ev.key] {
+				seenKey[ev.key] = true
+				r.Undecided(R2, ev.key, c.P.Pos(ev.pos), ev.detail+ev.viaNote())
 			}
 		}
-		r.Check(argsOK, R2, "writeRTP|fanout|sends-header-and-payload-of-the-packet", c.P.Pos(call.Pos()), "header and payload of the rewritten packet", "the fan-out call does not pass the header and payload of the rewritten packet")
 	}
 	if len(sendNodes) == 0 {
-		r.Fail(R2, "writeRTP|fanout|stream-of-the-visited-binding", pos, "no call through trackBinding.writeStream found in writeRTP")
-	}
-
-	// ---- writes through the packet
-	rtpHeader := c29HeaderFields(info, packet)
-	rewrites := map[string][]int{} // field name -> assign nodes
-	for _, n := range g.Nodes {
-		if n.Ast == nil {
-			continue
-		}
-		core.InspectShallow(n.Ast, func(x ast.Node) bool {
-			var lhss []ast.Expr
-			var rhss []ast.Expr
-			switch s := x.(type) {
-			case *ast.AssignStmt:
-				lhss = s.Lhs
-				if len(s.Lhs) == len(s.Rhs) {
-					rhss = s.Rhs
-				}
-			case *ast.IncDecStmt:
-				lhss = []ast.Expr{s.X}
-			default:
-				return true
-			}
-			for i, l := range lhss {
-				rooted, elem := c29RootedAt(info, l, pvars)
-				if !rooted {
-					continue
-				}
-				if v := core.VarOf(info, l); v != nil {
-					continue // plain rebinding of the local pointer: handled as alias
-				}
-				lpos := c.P.Pos(l.Pos())
-				fv := core.FieldOf(info, l)
-				switch {
-				case elem:
-					r.Fail(R2, "writeRTP|write|element:"+c29FieldPath(info, l), lpos, "element write through a slice of the packet ("+exprStr(l)+"): the slice is shared with the caller's packet")
-				case fv == nil:
-					r.Fail(R2, "writeRTP|write|whole-packet", lpos, "the packet is overwritten as a whole ("+exprStr(l)+")")
-				case fv == rtpHeader["SSRC"] || fv == rtpHeader["PayloadType"]:
-					want := a.fSSRC
-					if fv == rtpHeader["PayloadType"] {
-						want = a.fPT
-					}
-					okSrc := rhss != nil && isBindingField(rhss[i], want)
-					rewrites[fv.Name()] = append(rewrites[fv.Name()], n.ID)
-					r.Check(okSrc && inBody[n.ID], R2, "writeRTP|rewrite|"+fv.Name()+"<-binding."+want.Name(), lpos, "taken from the binding being visited",
-						sprintf("header field %s is not set from %s of the binding being visited (inside the loop)", fv.Name(), want.Name()))
-				case fv == rtpHeader["PaddingSize"]:
-					// accepted idiom: mirrors the deprecated Packet.PaddingSize into Header.PaddingSize (same quantity, moved)
-					okSrc := false
-					if rhss != nil {
-						if se, ok := c23Strip(info, rhss[i]).(*ast.SelectorExpr); ok {
-							if rv := core.FieldOf(info, se); rv != nil && rv.Name() == "PaddingSize" {
-								if rooted2, _ := c29RootedAt(info, se, pvars); rooted2 {
-									okSrc = true
-								}
-							}
-						}
-					}
-					r.Check(okSrc, R2, "writeRTP|write|Header.PaddingSize-mirror", lpos, "mirrors the packet's own PaddingSize", "Header.PaddingSize is set from something other than the packet's own PaddingSize")
-				default:
-					if _, isBasic := fv.Type().Underlying().(*types.Basic); isBasic {
-						r.Fail(R2, "writeRTP|write|"+c29FieldPath(info, l), lpos, "header/packet field other than SSRC, PayloadType and the PaddingSize mirror is rewritten: "+exprStr(l))
-					} else {
-						r.Fail(R2, "writeRTP|write|"+c29FieldPath(info, l), lpos, "a non-scalar member of the packet is replaced ("+exprStr(l)+"): payload and other header fields must reach the writers unchanged")
-					}
-				}
-			}
-			return true
-		})
+		r.Fail(R2, "writeRTP|fanout|stream-of-the-visited-binding", pos, "no call through trackBinding.writeStream found in writeRTP (or in a helper the packet and the binding are passed to)")
 	}
 	for _, f := range []string{"SSRC", "PayloadType"} {
 		key := "writeRTP|rewrite-precedes-send|" + f
 		if len(rewrites[f]) == 0 {
-			r.Fail(R2, key, pos, "header field "+f+" is never rewritten from the binding")
+			r.Fail(R2, key, pos, "header field "+f+" is never rewritten from the binding on every path")
 			continue
 		}
 		// every path from the start of an iteration to a send passes a rewrite
 		avoid := core.NodeSet(rewrites[f])
 		reach := g.Reach([]int{body}, func(n int) bool { return avoid[n] || n == head }, nil)
 		ok := len(sendNodes) > 0
-		for _, s := range sendNodes {
-			if reach[s] && !avoid[s] {
+		for _, sn := range sendNodes {
+			if reach[sn] && !avoid[sn] {
 				ok = false
+			}
+			if avoid[sn] {
+				// rewrite and send inside one helper call: the helper-internal order was checked by the scan
+				// (a rewrite is only propagated as unconditional when it dominates the helper's send)
+				continue
 			}
 		}
 		r.Check(ok, R2, key, c.P.Pos(g.PosOf(rewrites[f][0])), "set on every path from the iteration start to the send", "a path through the loop body reaches the send without rewriting "+f)
-	}
-	// ---- other hand-offs of the packet
-	for _, n := range g.Nodes {
-		if n.Ast == nil {
-			continue
-		}
-		core.InspectShallow(n.Ast, func(x ast.Node) bool {
-			call, ok := x.(*ast.CallExpr)
-			if !ok {
-				return true
-			}
-			if se, ok := ast.Unparen(call.Fun).(*ast.SelectorExpr); ok {
-				if core.FieldOf(info, se.X) == a.fStream {
-					return true // the fan-out itself
-				}
-				if sel := info.Selections[se]; sel != nil && sel.Kind() == types.MethodVal {
-					if rooted, _ := c29RootedAt(info, se.X, pvars); rooted {
-						r.Fail(R2, "writeRTP|hand-off|method:"+se.Sel.Name, c.P.Pos(call.Pos()), "a method is invoked on the packet inside writeRTP ("+exprStr(call.Fun)+"): it may modify slices shared with the caller")
-					}
-				}
-			}
-			for _, arg := range call.Args {
-				if rooted, _ := c29RootedAt(info, arg, pvars); rooted {
-					if tv, ok := info.Types[call.Fun]; ok && tv.IsType() {
-						continue // conversion
-					}
-					if id, ok := ast.Unparen(call.Fun).(*ast.Ident); ok {
-						if b, ok := info.Uses[id].(*types.Builtin); ok && (b.Name() == "len" || b.Name() == "cap") {
-							continue
-						}
-					}
-					if _, isBasic := info.TypeOf(arg).Underlying().(*types.Basic); isBasic {
-						continue // scalar copy
-					}
-					r.Fail(R2, "writeRTP|hand-off|"+calleeName(info, call), c.P.Pos(call.Pos()), "the packet (or a slice of it) is handed to "+calleeName(info, call)+" inside writeRTP")
-				}
-			}
-			return true
-		})
 	}
 
 	// ---- R3: exactly once per iteration, no early exit, loop on every path
@@ -956,6 +852,29 @@ func c29R4(c *Ctx, a *c29Anchors) {
 		return ok && core.FieldOf(info, se.X) == a.fStream
 	})
 	okAll := len(sends) > 0
+	if len(sends) == 0 {
+		// the send may live in a same-package helper that is only ever called with the lock held
+		for _, hf := range c.P.AllFuncs() {
+			if hf.Decl.Body == nil || hf.Pkg != a.writeRTP.Pkg || hf == a.writeRTP {
+				continue
+			}
+			has := false
+			ast.Inspect(hf.Decl.Body, func(n ast.Node) bool {
+				if call, ok := n.(*ast.CallExpr); ok {
+					if se, ok := ast.Unparen(call.Fun).(*ast.SelectorExpr); ok && core.FieldOf(info, se.X) == a.fStream {
+						has = true
+					}
+				}
+				return true
+			})
+			if has {
+				okAll = !hf.Obj.Exported() && calledOnlyUnderLock(c, hf, class)
+				if !okAll {
+					break
+				}
+			}
+		}
+	}
 	for _, s := range sends {
 		held := false
 		for inst := range li.In[s] {
@@ -1098,4 +1017,316 @@ func c29R5(c *Ctx, a *c29Anchors) {
 	if nput == 0 {
 		r.Fail(R, "pool-put|none", "-", "no rtpPacketPool.Put call found: the rule lost its anchor")
 	}
+}
+
+// c29Frame is one function in which the pooled packet is visible: writeRTP itself or a same-package
+// helper that receives the packet pointer (and possibly the binding being visited) as arguments.
+type c29Frame struct {
+	fi        *core.FuncInfo
+	info      *types.Info
+	g         *core.Graph
+	pvars     map[*types.Var]bool      // variables that hold the packet pointer
+	isBinding func(base ast.Expr) bool // base denotes the binding being visited
+	via       string                   // helper chain, "" for writeRTP
+}
+
+// c29Event is something a frame does with the packet, reported at a node of the *outermost* frame.
+type c29Event struct {
+	kind   string // send, rewrite, padding, bad, undecided
+	field  string // SSRC / PayloadType for rewrites
+	key    string
+	detail string
+	pos    token.Pos
+	node   int  // node in the frame that reports the event (after propagation: the call node in the caller)
+	srcOK  bool // rewrite/padding: value has the right provenance; send: stream of the visited binding
+	argsOK bool // send: header and payload of the packet
+	always bool // rewrite: happens on every path (before the helper's send, if the helper sends)
+	once   bool // send: exactly once on every path of the helper (true for a direct send)
+	via    string
+}
+
+func (e c29Event) viaNote() string {
+	if e.via == "" {
+		return ""
+	}
+	return " (in helper " + e.via + ")"
+}
+
+// c29BindingField: e is field f of the binding being visited in this frame.
+func (fr *c29Frame) bindingField(e ast.Expr, f *types.Var) bool {
+	se, ok := c23Strip(fr.info, e).(*ast.SelectorExpr)
+	if !ok || core.FieldOf(fr.info, se) != f {
+		return false
+	}
+	base := ast.Unparen(se.X)
+	if st, ok := base.(*ast.StarExpr); ok {
+		base = ast.Unparen(st.X)
+	}
+	return fr.isBinding(base)
+}
+
+// c29Scan classifies every write through the packet, every send and every hand-off in frame fr, following
+// same-package helpers that receive the packet pointer with their parameters bound to the call's arguments.
+func c29Scan(c *Ctx, a *c29Anchors, fr *c29Frame, depth int) []c29Event {
+	var out []c29Event
+	info, g := fr.info, fr.g
+	add := func(e c29Event) { e.via = fr.via; out = append(out, e) }
+	var packetVar *types.Var
+	for v := range fr.pvars {
+		packetVar = v
+	}
+	if packetVar == nil {
+		return nil
+	}
+	rtpHeader := c29HeaderFields(info, packetVar)
+
+	// a closure capturing the packet would hide writes from the CFG-based rules
+	ast.Inspect(fr.fi.Decl.Body, func(n ast.Node) bool {
+		fl, ok := n.(*ast.FuncLit)
+		if !ok {
+			return true
+		}
+		captured := false
+		ast.Inspect(fl.Body, func(m ast.Node) bool {
+			if id, ok := m.(*ast.Ident); ok {
+				if v, _ := info.Uses[id].(*types.Var); v != nil && fr.pvars[v] {
+					captured = true
+				}
+			}
+			return true
+		})
+		if captured && depth > 0 {
+			add(c29Event{kind: "undecided", key: "writeRTP|packet-captured-by-closure", pos: fl.Pos(), detail: "the packet is captured by a function literal; writes through it are not tracked"})
+		}
+		return false
+	})
+
+	for _, n := range g.Nodes {
+		if n.Ast == nil {
+			continue
+		}
+		nid := n.ID
+		core.InspectShallow(n.Ast, func(x ast.Node) bool {
+			switch s := x.(type) {
+			case *ast.AssignStmt, *ast.IncDecStmt:
+				var lhss, rhss []ast.Expr
+				if as, ok := s.(*ast.AssignStmt); ok {
+					lhss = as.Lhs
+					if len(as.Lhs) == len(as.Rhs) {
+						rhss = as.Rhs
+					}
+					// the packet pointer itself stored somewhere that outlives the call
+					for i, rhs := range as.Rhs {
+						if v := core.VarOf(info, c23Strip(info, rhs)); v != nil && fr.pvars[v] && i < len(as.Lhs) {
+							if lv := core.VarOf(info, as.Lhs[i]); lv == nil || (lv.Pkg() != nil && lv.Parent() == lv.Pkg().Scope()) {
+								add(c29Event{kind: "bad", key: "writeRTP|hand-off|stored", pos: as.Pos(), node: nid, detail: "the packet pointer is stored into " + exprStr(as.Lhs[i]) + ": it outlives the write and the pool hands the packet to the next caller"})
+							}
+						}
+					}
+				} else {
+					lhss = []ast.Expr{s.(*ast.IncDecStmt).X}
+				}
+				for i, l := range lhss {
+					rooted, elem := c29RootedAt(info, l, fr.pvars)
+					if !rooted {
+						continue
+					}
+					if v := core.VarOf(info, l); v != nil {
+						continue // plain rebinding of the local pointer: handled as alias
+					}
+					fv := core.FieldOf(info, l)
+					switch {
+					case elem:
+						add(c29Event{kind: "bad", key: "writeRTP|write|element:" + c29FieldPath(info, l), pos: l.Pos(), node: nid, detail: "element write through a slice of the packet (" + exprStr(l) + "): the slice is shared with the caller's packet"})
+					case fv == nil:
+						add(c29Event{kind: "bad", key: "writeRTP|write|whole-packet", pos: l.Pos(), node: nid, detail: "the packet is overwritten as a whole (" + exprStr(l) + ")"})
+					case fv == rtpHeader["SSRC"] || fv == rtpHeader["PayloadType"]:
+						want := a.fSSRC
+						if fv == rtpHeader["PayloadType"] {
+							want = a.fPT
+						}
+						add(c29Event{kind: "rewrite", field: fv.Name(), pos: l.Pos(), node: nid, always: true, srcOK: rhss != nil && fr.bindingField(rhss[i], want)})
+					case fv == rtpHeader["PaddingSize"]:
+						// accepted idiom: mirrors the deprecated Packet.PaddingSize into Header.PaddingSize (same quantity, moved)
+						okSrc := false
+						if rhss != nil {
+							if se, ok := c23Strip(info, rhss[i]).(*ast.SelectorExpr); ok {
+								if rv := core.FieldOf(info, se); rv != nil && rv.Name() == "PaddingSize" {
+									if rooted2, _ := c29RootedAt(info, se, fr.pvars); rooted2 {
+										okSrc = true
+									}
+								}
+							}
+						}
+						add(c29Event{kind: "padding", pos: l.Pos(), node: nid, srcOK: okSrc})
+					default:
+						d := "a non-scalar member of the packet is replaced (" + exprStr(l) + "): payload and other header fields must reach the writers unchanged"
+						if _, isBasic := fv.Type().Underlying().(*types.Basic); isBasic {
+							d = "header/packet field other than SSRC, PayloadType and the PaddingSize mirror is rewritten: " + exprStr(l)
+						}
+						add(c29Event{kind: "bad", key: "writeRTP|write|" + c29FieldPath(info, l), pos: l.Pos(), node: nid, detail: d})
+					}
+				}
+			case *ast.CallExpr:
+				call := s
+				if se, ok := ast.Unparen(call.Fun).(*ast.SelectorExpr); ok {
+					if core.FieldOf(info, se.X) == a.fStream {
+						// the fan-out itself
+						argsOK := len(call.Args) == 2
+						for _, arg := range call.Args {
+							rooted, elem := c29RootedAt(info, arg, fr.pvars)
+							if !rooted || elem {
+								argsOK = false
+							}
+						}
+						add(c29Event{kind: "send", pos: call.Pos(), node: nid, srcOK: fr.bindingField(se.X, a.fStream), argsOK: argsOK, once: true})
+						return true
+					}
+					if sel := info.Selections[se]; sel != nil && sel.Kind() == types.MethodVal {
+						if rooted, _ := c29RootedAt(info, se.X, fr.pvars); rooted {
+							add(c29Event{kind: "bad", key: "writeRTP|hand-off|method:" + se.Sel.Name, pos: call.Pos(), node: nid, detail: "a method is invoked on the packet inside writeRTP (" + exprStr(call.Fun) + "): it may modify slices shared with the caller"})
+						}
+					}
+				}
+				if tv, ok := info.Types[call.Fun]; ok && tv.IsType() {
+					return true // conversion
+				}
+				if id, ok := ast.Unparen(call.Fun).(*ast.Ident); ok {
+					if b, ok := info.Uses[id].(*types.Builtin); ok && (b.Name() == "len" || b.Name() == "cap") {
+						return true
+					}
+				}
+				handsPacket := false
+				for _, arg := range call.Args {
+					if rooted, _ := c29RootedAt(info, arg, fr.pvars); rooted {
+						if _, isBasic := info.TypeOf(arg).Underlying().(*types.Basic); !isBasic {
+							handsPacket = true
+						}
+					}
+				}
+				if !handsPacket {
+					return true
+				}
+				out = append(out, c29FollowHelper(c, a, fr, call, nid, depth)...)
+			}
+			return true
+		})
+	}
+	return out
+}
+
+// c29FollowHelper analyses a call that receives the packet: a same-package function with a body is entered
+// with its parameters bound to the arguments; anything else is a hand-off.
+func c29FollowHelper(c *Ctx, a *c29Anchors, fr *c29Frame, call *ast.CallExpr, nid int, depth int) []c29Event {
+	info := fr.info
+	name := calleeName(info, call)
+	bad := func(kind, detail string) []c29Event {
+		return []c29Event{{kind: kind, key: "writeRTP|hand-off|" + name, pos: call.Pos(), node: nid, detail: detail, via: fr.via}}
+	}
+	callee := core.Callee(info, call)
+	hfi := c.P.DeclOf(callee)
+	if hfi == nil || hfi.Decl.Body == nil || hfi.Pkg != fr.fi.Pkg {
+		return bad("bad", "the packet (or a slice of it) is handed to "+name+" inside writeRTP")
+	}
+	if depth >= 2 {
+		return bad("undecided", "helper nesting too deep to follow the packet into "+name)
+	}
+	if _, isGo := fr.g.Nodes[nid].Ast.(*ast.GoStmt); isGo {
+		return bad("bad", "the packet is handed to a goroutine ("+name+"): it is used after writeRTP returned it to the pool")
+	}
+	if _, isDefer := fr.g.Nodes[nid].Ast.(*ast.DeferStmt); isDefer {
+		return bad("undecided", "the packet is handed to a deferred call ("+name+")")
+	}
+	sig := callee.Type().(*types.Signature)
+	if sig.Variadic() || sig.Params().Len() != len(call.Args) {
+		return bad("undecided", "cannot bind the arguments of "+name+" to its parameters")
+	}
+	hinfo := hfi.Pkg.TypesInfo
+	pv := map[*types.Var]bool{}
+	bindingParams := map[*types.Var]bool{}
+	for i, arg := range call.Args {
+		p := sig.Params().At(i)
+		argS := c23Strip(info, arg)
+		if v := core.VarOf(info, argS); v != nil && fr.pvars[v] {
+			pv[p] = true
+			continue
+		}
+		if rooted, _ := c29RootedAt(info, arg, fr.pvars); rooted {
+			if _, isBasic := info.TypeOf(arg).Underlying().(*types.Basic); isBasic {
+				continue // a scalar copied out of the packet
+			}
+			return bad("undecided", "a part of the packet ("+exprStr(arg)+") is passed to "+name+"; only the packet pointer itself is followed into helpers")
+		}
+		base := ast.Unparen(argS)
+		if u, ok := base.(*ast.UnaryExpr); ok && u.Op == token.AND {
+			base = ast.Unparen(u.X)
+		}
+		if fr.isBinding(base) {
+			bindingParams[p] = true
+		}
+	}
+	if sig.Recv() != nil {
+		// a method: its receiver is not the packet (that case is reported as method-on-packet by the caller)
+	}
+	// local aliases of the packet parameter inside the helper
+	for p := range pv {
+		for v := range c29Aliases(hinfo, hfi.Decl.Body, p) {
+			pv[v] = true
+		}
+	}
+	via := hfi.Name()
+	if fr.via != "" {
+		via = fr.via + " > " + via
+	}
+	hg := c.P.GraphOf(hfi)
+	hfr := &c29Frame{fi: hfi, info: hinfo, g: hg, pvars: pv, via: via, isBinding: func(base ast.Expr) bool {
+		v := core.VarOf(hinfo, ast.Unparen(base))
+		return v != nil && bindingParams[v]
+	}}
+	c.R.Saw(hfi.Name())
+	inner := c29Scan(c, a, hfr, depth+1)
+	// helper-internal structure: where are its sends
+	var hsends []int
+	for _, ev := range inner {
+		if ev.kind == "send" {
+			hsends = append(hsends, ev.node)
+		}
+	}
+	var out []c29Event
+	for _, ev := range inner {
+		up := ev
+		switch ev.kind {
+		case "rewrite":
+			if ev.always {
+				if len(hsends) > 0 {
+					for _, sn := range hsends {
+						if !hg.Dominated(sn, map[int]bool{ev.node: true}) {
+							up.always = false
+						}
+					}
+				} else if !hg.Dominated(hg.Exit, map[int]bool{ev.node: true}) {
+					up.always = false
+				}
+			}
+		case "send":
+			if ev.once {
+				if !hg.Dominated(hg.Exit, map[int]bool{ev.node: true}) {
+					up.once = false
+				}
+				var succ []int
+				for _, e := range hg.Nodes[ev.node].Succs {
+					succ = append(succ, e.To)
+				}
+				after := hg.Reach(succ, nil, nil)
+				for _, sn := range hsends {
+					if after[sn] {
+						up.once = false
+					}
+				}
+			}
+		}
+		up.node = nid
+		out = append(out, up)
+	}
+	return out
 }
